@@ -148,20 +148,22 @@ def host_and_validate(ctx, name, cases, env, tot):
     accepted = True
     for ci, ch in enumerate(chunks):
         p = os.path.join(ctx.scratch, "c02-%s-%d.ndjson" % (name, ci))
-        write_ndjson(p, [rows[0]] + ch)
         lines = [rows[0]] + ch
-        vp = validate(ctx, SPEC, "Trace_ReadAuth", "Trace_ReadAuth_P.cfg", p, timeout=3000, tag="P-%s-%d" % (name, ci))
-        if vp.inv:
-            collect_violations(ctx, name, p, lines)
+        write_ndjson(p, lines)
+        # pass P: the four property predicates on every recorded event.  Run in the trace module's collect mode: the
+        # same predicates, but a failure is printed (<<"VIOL", invariant, line, class>>) instead of stopping TLC at the
+        # first one, so that every distinct failure can be keyed (known findings are matched per key).
+        new_violation = pass_p(ctx, name, ci, p, lines)
+        if new_violation:
             accepted = False
             continue
-        if not vp.accepted:
-            raise Inconclusive("pass P stopped at line %s of %s (%s; trace shape not accepted)\n%s" % (vp.line, vp.total, name, vp.out[-1500:]))
         vc = validate(ctx, SPEC, "Trace_ReadAuth", "Trace_ReadAuth_C.cfg", p, timeout=3000, tag="C-%s-%d" % (name, ci))
-        if vc.inv or not vc.accepted:
+        if vc.inv:
+            raise Inconclusive("pass C evaluated a property invariant to false that pass P accepted (%s, %s)" % (name, vc.inv))
+        if not vc.accepted:
             ctx.cov["nonconformance"] += 1
             ln = vc.line
-            ctx.notes.append("pass C (%s) rejected line %s (%s): %s" % (name, ln, vc.inv, json.dumps(lines[ln - 1])[:600] if ln and ln <= len(lines) else None))
+            ctx.notes.append("pass C (%s) rejected line %s: %s" % (name, ln, json.dumps(lines[ln - 1])[:600] if ln and ln <= len(lines) else None))
             accepted = False
     if accepted:
         ctx.cov["traces_validated_against_impl"] += len(cases)
@@ -170,23 +172,29 @@ def host_and_validate(ctx, name, cases, env, tot):
 _VIOL = re.compile(r'^<<"VIOL", "(\w+)", (\d+), "([^"]*)">>$')
 
 
-def collect_violations(ctx, name, path, lines):
-    """pass P failed: evaluate the same predicates on every line (collect mode) and key every distinct failure."""
+def pass_p(ctx, name, ci, path, lines):
+    """returns True iff a failure that is not a recorded known finding was reported."""
     r = tlc(ctx, SPEC, "Trace_ReadAuth", "Trace_ReadAuth_P.cfg", workers=1, env={"VERIF_TRACE": path, "VERIF_C02_COLLECT": "1"},
-            timeout=3000, dfs=True, tag="Pcollect-" + name, allow_violation=True)
+            timeout=3000, dfs=True, tag="P-%s-%d" % (name, ci), allow_violation=True)
+    if r.inv_violated or r.error_text:
+        raise Inconclusive("pass P could not be evaluated (%s): %s\n%s" % (name, r.inv_violated or r.error_text, r.out[-1500:]))
+    hwm = max([int(txt.split(",")[0]) for t, txt in r.printed if t == "HWM"] or [0])
+    if hwm < len(lines):
+        raise Inconclusive("pass P stopped at line %s of %s (%s; trace shape not accepted)\n%s" % (hwm + 1, len(lines), name, r.out[-1500:]))
     found = []
     for ln in r.out.splitlines():
         m = _VIOL.match(ln.strip())
         if m:
             found.append((m.group(1), int(m.group(2)), m.group(3)))
     if not found:
-        raise Inconclusive("pass P reported a violation but collect mode found none (%s)\n%s" % (name, r.out[-1500:]))
+        return False
     case_at, cur = {}, None
     for i, l in enumerate(lines, 1):
         if l["a"] == "Case":
             cur = l
         case_at[i] = cur
     groups = collections.OrderedDict()
+    new = False
     for inv, ln, cls in found:
         ev, cs = lines[ln - 1], case_at[ln]
         surf = ev.get("surf", "?")
@@ -204,5 +212,8 @@ def collect_violations(ctx, name, path, lines):
         what = ("%s broken on the real gateway (%s run, %d events): user %s, %s %s -> status %s, body markers of %s, attachment markers of %s; case %s"
                 % (key, name, len(items), ev.get("u"), ev.get("surf"), ev.get("rq"), ev.get("st"), ev.get("mk"), ev.get("am"),
                    json.dumps({k: cs[k] for k in ("shape", "role", "users", "revs", "cur")}) if cs else None))
-        report_violation(ctx, key, what, {"invariant": key, "events": len(items), "case": cs, "read": ev, "run": name,
-                                          "more": [{"case": c, "read": e} for _, e, c in items[1:4]]})
+        if report_violation(ctx, key, what, {"invariant": key, "events": len(items), "case": cs, "read": ev, "run": name,
+                                             "more": [{"case": c, "read": e} for _, e, c in items[1:4]]}):
+            new = True
+        ctx.cov.setdefault("property_failures_by_key", {})[key] = ctx.cov.get("property_failures_by_key", {}).get(key, 0) + len(items)
+    return new
